@@ -708,6 +708,10 @@ def _r3(ctx, pkg):
         if ok_s:
             m2 = as_map(leaves["text"])
             ok_s = bool(m2) and m2[2] == RL and not m2[3] and m2[1][0] == "fstr" and len(m2[1][1]) == 1 and m2[1][1][0][0] == "fmt" and m2[1][1][0][1] == m2[0]
+            # format(react, mode) is f"{react:{mode}}"
+            if not ok_s and bool(m2) and m2[2] == RL and not m2[3] and m2[1][0] == "call" and m2[1][1] == ("global", "format") and len(m2[1][2]) == 2 and not m2[1][3] \
+                    and m2[1][2][0] == m2[0] and m2[1][2][1] == ("param", "mode"):
+                ok_s = True
         m3 = as_map(leaves["text"])
         read = leaves["none"][0] in ("attr", "comp", "list", "call") and bool(m3) and m3[2] == RL and m3[1][0] in ("fstr", "attr", "const", "tuple")
         if ok_s or read:
